@@ -239,6 +239,11 @@ func (sr *StyleResolver) applyStyleDef(resolved *ResolvedStyle, def *styleDefXML
 func detectBuiltInHeading(styleName string) (bool, int) {
 	name := strings.ToLower(styleName)
 
+	// ODF stores a style name with the characters outside NCName escaped as _xx_
+	// (hex): "Heading 3" is written "Heading_20_3". Undo the escaped space so the
+	// "20" is not mistaken for a level digit.
+	name = strings.ReplaceAll(name, "_20_", " ")
+
 	// Standard heading patterns
 	headingPatterns := map[string]int{
 		"heading_1": 1, "heading_2": 2, "heading_3": 3,
